@@ -67,8 +67,8 @@ def rl_sched_constants(tier, depth, outdir, excl):
 
 def sizes(tier):
     if tier == "quick":
-        return dict(rl_n=36, rl_depth=30, shards=12)
-    return dict(rl_n=400, rl_depth=45, shards=16)
+        return dict(rl_n=24, rl_depth=28, pfm_n=14, pfm_depth=24, denom_chunk=9, shards=12)
+    return dict(rl_n=400, rl_depth=45, pfm_n=300, pfm_depth=36, denom_chunk=6, shards=16)
 
 
 def run_mc_rl(tier, d):
@@ -175,6 +175,186 @@ def rl_class_steps(acts):
     return [i for i, a in enumerate(acts, 1) if a.get("kf")]
 
 
+# ------------------------------------------------------------------------------------------ DENOM (C42)
+
+DENOM_BASES = ["plain", "pool3", "lp3", "vouchershape", "two-id", "two-plain", "even-id", "lp5", "shortport", "single-id"]
+DENOM_ROUTES = {
+    "quick": ["ab", "ab-ba", "ab-ba2", "ab-bc-cb-ba", "b:ba-ab2"],
+    "thorough": ["ab", "ab-ba", "ab-ba2", "ab-bc", "ab-bc-cb", "ab-bc-cb-ba", "ab-ba2-ab2", "b:bc-cb", "b:ba-ab2"],
+}
+DENOM_KF_BASES = ["lp3", "vouchershape", "lp5", "two-id"]    # canonical failing members of the class of KF-C42-1
+DENOM_MC_WITNESS = ["send-escrow", "send-burn", "recv-mint", "recv-unescrow", "recv-unescrow-fails", "send-invalid",
+                    "class-send-differs", "class-recv-differs", "multi-hop-voucher", "full-unwind", "second-channel"]
+
+
+def run_mc_denom(tier, d):
+    cfg = os.path.join(d, "MC_DENOM.cfg")
+    vk.write_cfg(cfg, "Spec", {}, invariants=["Agree"])
+    # write_cfg emits an empty CONSTANTS section
+    txt = open(cfg).read().replace("CONSTANTS\n", "")
+    open(cfg, "w").write(txt)
+    r = vk.tlc_mc(d, "MC_RLDenom", cfg, workers=2, timeout=600)
+    seen = set(re.findall(r'<<"WITNESS", "([A-Za-z0-9:-]+)">>', r["out"]))
+    missing = [w for w in DENOM_MC_WITNESS if w not in seen]
+    if missing:
+        raise vk.Infra("vacuous model check (RLDenom): never witnessed %s" % missing)
+    return {"distinct": r["distinct"], "generated": r["generated"], "depth": r["depth"], "witnessed": sorted(seen),
+            "constants": {"bases": DENOM_BASES, "routes": DENOM_ROUTES["thorough"]}}
+
+
+def denom_table(workdir, bases, routes, excl, tag):
+    """TLC enumerates the case table (RLDenom.BaseSegs x RouteOf) once; returns the list of cases."""
+    d = vk.scratch_spec(SPEC_DIR)
+    try:
+        out = os.path.join(workdir, "denom_table_%s.json" % tag)
+        cfg = os.path.join(d, "Sched_DENOM.cfg")
+        vk.write_cfg(cfg, "Spec", dict(OutFile=out, EXCL_KF=bool(excl), BASES=set(bases), ROUTES=set(routes)))
+        rc, o = vk._tlc(["-workers", "1", "-config", cfg, "Sched_RLDenom.tla"], d, 300)
+        if rc != 0 or not os.path.exists(out):
+            raise vk.Infra("case table generation (RLDenom) failed:\n%s" % o[-3000:])
+        table = json.load(open(out))
+    finally:
+        shutil.rmtree(d, ignore_errors=True)
+    table.sort(key=lambda c: (c["base"], c["route"]))
+    return table
+
+
+def gen_denom(tier, seed, workdir, excl):
+    table = denom_table(workdir, DENOM_BASES, DENOM_ROUTES[tier], excl, "main")
+    if len(table) < 10:
+        raise vk.Infra("case table (RLDenom) has only %d cases" % len(table))
+    # the seed only permutes the order in which the cases share chains
+    import random
+    rnd = random.Random(seed)
+    rnd.shuffle(table)
+    chunk = sizes(tier)["denom_chunk"]
+    scheds = []
+    for i in range(0, len(table), chunk):
+        acts = []
+        for c in table[i:i + chunk]:
+            acts += c["acts"]
+        scheds.append({"id": "DN-%d-%d" % (seed, i // chunk), "kind": "DENOM", "acts": acts})
+    return scheds
+
+
+def denom_kf_schedules(workdir):
+    table = denom_table(workdir, DENOM_KF_BASES, ["ab", "ab-ba"], False, "kf")
+    acts = []
+    for c in table:
+        acts += c["acts"]
+    return [{"id": "DN-kf", "kind": "DENOM", "acts": acts}]
+
+
+def denom_case_of_step(acts, step):
+    """The Case action (inputs of the journey) a 1-based step index belongs to."""
+    cur = None
+    for i, a in enumerate(acts, 1):
+        if a.get("a") == "Case":
+            cur = a
+        if i == step:
+            return cur
+    return cur
+
+
+# ------------------------------------------------------------------------------------------ PFM (C43)
+
+PFM_MC_WITNESS = ["Transfer", "Recv:final", "Recv:forward", "Recv:err", "Ack:ok", "Ack:err", "Ack:fwd-ok", "Ack:fwd-err",
+                  "Timeout:plain", "Timeout:giveup", "Timeout:retry", "Terminal:delivered", "Terminal:refunded",
+                  "Refund:move", "Refund:burn", "Refund:mint", "Unwind:2", "Depth:3", "BadChannel"]
+
+
+def pfm_mc_constants(tier):
+    if tier == "quick":
+        return dict(TOKENS={"TA", "TB", "TC"}, DEPTHS={2, 3}, AMTS={7}, RETS={0, 1}, TOS={10}, FINS={"rcvr", "bad"},
+                    BADHOPS={0, 2}, EXPS={0, 5}, MaxJ=1)
+    return dict(TOKENS={"TA", "TB", "TC", "TD"}, DEPTHS={1, 2, 3}, AMTS={7}, RETS={0, 1}, TOS={10}, FINS={"rcvr", "bad"},
+                BADHOPS={0, 1, 2}, EXPS={0, 5}, MaxJ=1)
+
+
+def pfm_sched_constants(tier, depth, outdir):
+    return dict(TOKENS={"TA", "TB", "TC", "TD"}, DEPTHS={1, 2, 3} if tier != "quick" else {2, 3}, AMTS={7, 13}, RETS={0, 1},
+                TOS={10, 3}, FINS={"rcvr", "bad"}, BADHOPS={0, 1, 2}, EXPS={0, 5}, Depth=depth, OutDir=outdir,
+                ADV_PCT=12, TIMEOUT_PCT=35)
+
+
+def run_mc_pfm(tier, d):
+    cfg = os.path.join(d, "MC_PFM.cfg")
+    consts = pfm_mc_constants(tier)
+    vk.write_cfg(cfg, "Spec", consts, invariants=["Inv"], properties=["AllOrNothing"])
+    r = vk.tlc_mc(d, "MC_PFM", cfg, workers=4, timeout=900 if tier == "quick" else 3000)
+    seen = set(re.findall(r'<<"WITNESS", "([A-Za-z0-9:-]+)">>', r["out"]))
+    missing = [w for w in PFM_MC_WITNESS if w not in seen]
+    if missing:
+        raise vk.Infra("vacuous model check (PFM): never witnessed %s" % missing)
+    return {"distinct": r["distinct"], "generated": r["generated"], "depth": r["depth"], "witnessed": sorted(seen),
+            "constants": {k: (sorted(v) if isinstance(v, set) else v) for k, v in consts.items()}}
+
+
+def _hop(L, rcv, to=10, ret=0, chok=True):
+    return {"L": L, "rcv": rcv, "to": to, "ret": ret, "chok": chok}
+
+
+def pfm_boundary_schedules():
+    """Fixed journeys: the three refund cases of the middleware, a retry that succeeds, a retry that gives up, a
+    receive one tick before / exactly at the timeout.  Packet records are those the specification predicts
+    (sequence numbers after the set-up: A/AB 1.., B/BC 1.., C/CD 1..)."""
+    TA = {"t": [], "b": "TA"}
+    TC = {"t": ["AB@A", "BC@B"], "b": "TC"}
+
+    def tr(d, amt, memo, rcv="pfm"):
+        return {"a": "Transfer", "dt": 1, "c": "A", "L": "AB", "d": d, "amt": amt, "rcv": rcv, "memo": memo, "exp": 0}
+
+    def pkt(src, L, seq, d, amt, snd, rcv, memo, exp):
+        return {"src": src, "L": L, "seq": seq, "d": d, "amt": amt, "snd": snd, "rcv": rcv, "memo": memo, "exp": exp}
+    out = []
+    # 1. native token, depth 2, retries 1: first forward times out (retry), the retry is delivered
+    m = [_hop("BC", "rcvr", 10, 1)]
+    p1 = pkt("A", "AB", 1, TA, 7, "user", "pfm", m, 0)
+    f1 = pkt("B", "BC", 1, {"t": ["AB@B"], "b": "TA"}, 7, "pfm", "rcvr", [], 13)     # forwarded at tick 3
+    f2 = pkt("B", "BC", 2, {"t": ["AB@B"], "b": "TA"}, 7, "pfm", "rcvr", [], 24)     # retried at tick 14
+    out.append({"id": "PF-b1", "kind": "PFM", "acts": [
+        tr(TA, 7, m), {"a": "Recv", "dt": 1, "pkt": p1},
+        {"a": "Recv", "dt": 10, "pkt": f1},                   # exactly at the timeout: must be rejected
+        {"a": "Timeout", "dt": 1, "pkt": f1},                  # tick 14 > 13: retry
+        {"a": "Recv", "dt": 9, "pkt": f2},                     # tick 23 = one tick before the timeout: last chance
+        {"a": "Ack", "dt": 1, "pkt": f2}, {"a": "Ack", "dt": 1, "pkt": p1}]})
+    # 2. token of C unwinding twice, depth 2, retries 1, both attempts time out: give up, mint back, refund
+    m = [_hop("BC", "rcvr", 3, 1)]
+    p1 = pkt("A", "AB", 1, TC, 13, "user", "pfm", m, 0)
+    f1 = pkt("B", "BC", 1, {"t": ["BC@B"], "b": "TC"}, 13, "pfm", "rcvr", [], 6)
+    f2 = pkt("B", "BC", 2, {"t": ["BC@B"], "b": "TC"}, 13, "pfm", "rcvr", [], 10)
+    out.append({"id": "PF-b2", "kind": "PFM", "acts": [
+        tr(TC, 13, m), {"a": "Recv", "dt": 1, "pkt": p1},
+        {"a": "Timeout", "dt": 3, "pkt": f1},                  # tick 6 = timeout: too early, rejected
+        {"a": "Timeout", "dt": 1, "pkt": f1},                  # tick 7: retry
+        {"a": "Timeout", "dt": 4, "pkt": f2},                  # tick 11 > 10: give up
+        {"a": "Ack", "dt": 1, "pkt": p1}]})
+    return out
+
+
+def gen_pfm(tier, seed, workdir):
+    sz = sizes(tier)
+    d = vk.scratch_spec(SPEC_DIR)
+    try:
+        outdir = os.path.join(workdir, "sched_PFM")
+        os.makedirs(outdir, exist_ok=True)
+        cfg = os.path.join(d, "Sched_PFM.cfg")
+        vk.write_cfg(cfg, "Spec", pfm_sched_constants(tier, sz["pfm_depth"], outdir))
+        vk.tlc_simulate(d, "Sched_PFM", cfg, sz["pfm_n"], sz["pfm_depth"] + 1, seed * 13 + 2, workers=1,
+                        timeout=600 if tier == "quick" else 2400)
+        out = []
+        for i, f in enumerate(sorted(glob.glob(os.path.join(outdir, "*.json")))):
+            s = json.load(open(f))
+            s["id"] = "PF-%d-%d" % (seed, i)
+            out.append(s)
+    finally:
+        shutil.rmtree(d, ignore_errors=True)
+    out = out[: sz["pfm_n"]]
+    if len(out) < 3:
+        raise vk.Infra("schedule generation (PFM) produced only %d schedules" % len(out))
+    return out + pfm_boundary_schedules()
+
+
 # ------------------------------------------------------------------------------------------ driving / validation
 
 def drive(binary, scheds, workdir, tag, nshards):
@@ -206,7 +386,12 @@ TRACE_MODULE = {"RL": "Trace_RateLimit", "DENOM": "Trace_RLDenom", "PFM": "Trace
 def trace_constants(kind, tf):
     if kind == "RL":
         return dict(HOUR=RL_HOUR, TraceFile=tf)
+    if kind == "PFM":   # the journey constants are not used by the trace specification
+        return dict(TOKENS={"TA"}, DEPTHS={1}, AMTS={1}, RETS={0}, TOS={1}, FINS={"rcvr"}, BADHOPS={0}, EXPS={0}, TraceFile=tf)
     return dict(TraceFile=tf)
+
+
+MONFAIL_RE = re.compile(r'<<\s*"MONFAIL",\s*"([^"]*)",\s*(\d+),\s*<<\s*"([^"]*)",\s*"([^"]*)"\s*>>\s*>>')
 
 
 def validate(groups, workdir, tag, chunk=6000):
@@ -232,6 +417,8 @@ def validate(groups, workdir, tag, chunk=6000):
         cfg = os.path.join(d, "Trace_%s_%d.cfg" % (kind, ix))
         vk.write_cfg(cfg, "TraceSpec", trace_constants(kind, tf))
         fl, consumed, out = vk.tlc_trace(d, TRACE_MODULE[kind], cfg)
+        # TLC wraps tuples longer than 80 characters over several lines: parse again, tolerant of line breaks
+        fl = [(m.group(1), int(m.group(2)), m.group(3), m.group(4)) for m in MONFAIL_RE.finditer(out)]
         if consumed != len(lines):
             raise vk.Infra("trace validation consumed %d of %d lines (%s)\n%s" % (consumed, len(lines), kind, out[-2000:]))
         return fl, len(lines)
@@ -248,31 +435,70 @@ def coverage_of(groups):
     cov = collections.Counter()
     sigs = collections.defaultdict(set)
     for kind, lines in groups.items():
+        case = None
         for line in lines:
             d = json.loads(line)
             a = d["a"]
-            if a["a"] == "Init":
+            name = a["a"]
+            if name == "Init":
                 continue
             if kind == "RL":
-                name = a["a"]
                 fate = a.get("fate") or (a.get("pkt") or {}).get("fate") or ""
-                key = "RL:%s:%s" % (name, d["res"])
-                cov[key] += 1
+                cov["RL:%s:%s" % (name, d["res"])] += 1
                 if name in ("Recv", "Resolve") and d["res"] == "ok":
                     cov["RL:%s/ack-%s:ok" % (name, d.get("ack"))] += 1
                 if name in ("Ack", "Timeout", "Resolve") and d["res"] == "ok":
                     cov["RL:%s/fate-%s:ok" % (name, fate)] += 1
                 if d["st"]["rl"]:
                     cov["RL:limited:%s:%s" % (name, d["res"])] += 1
+                if d["st"]["ps"] or d["st"]["pr"]:
+                    cov["RL:pending:%s:%s" % (name, d["res"])] += 1
                 sigs["C41"].add((name, d["res"], d.get("ack"), fate, a.get("d"), a.get("ch"), bool(d["st"]["rl"]), d.get("nb")))
+            elif kind == "DENOM":
+                if name == "Case":
+                    case = a
+                    continue
+                cls = d["res"] if name == "XSend" or d["res"] != "ok" else "ack-" + d.get("ack", "")
+                cov["DENOM:%s:%s" % (name, cls)] += 1
+                if d["charged"]:
+                    cov["DENOM:%s/charged:%s" % (name, cls)] += 1
+                if any(m["acct"] == "supply" for m in d["moved"]):
+                    cov["DENOM:%s/mint-or-burn:%s" % (name, cls)] += 1
+                if any(m["acct"] == "escrow" for m in d["moved"]):
+                    cov["DENOM:%s/escrow:%s" % (name, cls)] += 1
+                sigs["C42"].add((case and case["base"], case and case["route"], name, a.get("hop"), cls))
+            elif kind == "PFM":
+                pk = a.get("pkt") or {}
+                fwd = bool(pk.get("memo")) or bool(a.get("memo"))
+                cov["PFM:%s:%s" % (name, d["res"])] += 1
+                if d["res"] == "ok":
+                    if d["sent"] and name in ("Recv", "Timeout"):
+                        cov["PFM:%s/%s:ok" % (name, "forward" if name == "Recv" else "retry")] += 1
+                    for wa in d["wack"]:
+                        cov["PFM:%s/wrote-%s:ok" % (name, wa["cls"])] += 1
+                    if name == "Transfer":
+                        cov["PFM:Transfer/depth-%d:ok" % (len(a.get("memo") or []) + 1)] += 1
+                sigs["C43"].add((name, d["res"], pk.get("src"), pk.get("L"), len(pk.get("d", {}).get("t", [])) if pk else None,
+                                 len(pk.get("memo") or []), bool(d["sent"]), tuple(wa["cls"] for wa in d["wack"]),
+                                 json.dumps(a.get("d")), len(a.get("memo") or [])))
     return cov, {p: len(s) for p, s in sigs.items()}
 
 
 FLOORS = {
     "C41": ["RL:Send:ok", "RL:Send:err", "RL:Recv/ack-ok:ok", "RL:Recv/ack-err:ok", "RL:Recv/ack-none:ok",
             "RL:Ack/fate-err:ok", "RL:Ack/fate-ok:ok", "RL:Timeout/fate-to:ok", "RL:Resolve/ack-err:ok", "RL:Resolve/ack-ok:ok",
-            "RL:Add:ok", "RL:Update:ok", "RL:Remove:ok", "RL:Reset:ok", "RL:Add:err", "RL:limited:Send:err"],
+            "RL:Add:ok", "RL:Update:ok", "RL:Remove:ok", "RL:Reset:ok", "RL:Add:err", "RL:limited:Send:err",
+            "RL:pending:Update:ok", "RL:pending:Reset:ok"],
+    "C42": ["DENOM:XSend:ok", "DENOM:XSend:err", "DENOM:XRecv:ack-ok", "DENOM:XRecv:ack-err", "DENOM:XSend/charged:ok",
+            "DENOM:XRecv/charged:ack-ok", "DENOM:XSend/mint-or-burn:ok", "DENOM:XSend/escrow:ok",
+            "DENOM:XRecv/mint-or-burn:ack-ok", "DENOM:XRecv/escrow:ack-ok"],
+    "C43": ["PFM:Transfer:ok", "PFM:Recv/forward:ok", "PFM:Timeout/retry:ok", "PFM:Ack/wrote-ok:ok", "PFM:Ack/wrote-err:ok",
+            "PFM:Timeout/wrote-err:ok", "PFM:Recv/wrote-err:ok", "PFM:Recv/wrote-ok:ok", "PFM:Recv:err", "PFM:Timeout:err",
+            "PFM:Transfer/depth-2:ok", "PFM:Transfer/depth-3:ok"],
 }
+
+KIND_OF_PROP = {"C41": "RL", "C42": "DENOM", "C43": "PFM"}
+SPEC_OF_PROP = {"C41": "RateLimit", "C42": "RLDenom", "C43": "PFM"}
 
 
 def run_family(tier, seed, binary=None):
@@ -281,54 +507,102 @@ def run_family(tier, seed, binary=None):
     shutil.rmtree(workdir, ignore_errors=True)
     os.makedirs(workdir)
     result, errors = {"mc": {}}, []
+    excl = {"C41": bool(open_known("C41")), "C42": bool(open_known("C42"))}
 
-    def mc_thread():
-        try:
-            d = vk.scratch_spec(SPEC_DIR)
+    def guarded(fn):
+        def run():
             try:
-                result["mc"]["RateLimit"] = run_mc_rl(tier, d)
-            finally:
-                shutil.rmtree(d, ignore_errors=True)
-        except Exception as e:  # noqa
-            errors.append(e)
-    th = threading.Thread(target=mc_thread)
-    th.start()
+                fn()
+            except Exception as e:  # noqa
+                errors.append(e)
+        th = threading.Thread(target=run)
+        th.start()
+        return th
+
+    def mc_one(name, fn):
+        d = vk.scratch_spec(SPEC_DIR)
+        try:
+            result["mc"][name] = fn(tier, d)
+        finally:
+            shutil.rmtree(d, ignore_errors=True)
+    scheds = {}
+    threads = [guarded(lambda: mc_one("RateLimit", run_mc_rl)),
+               guarded(lambda: mc_one("PFM", run_mc_pfm)),
+               guarded(lambda: mc_one("RLDenom", run_mc_denom)),
+               guarded(lambda: scheds.__setitem__("RL", gen_rl(tier, seed, workdir, excl["C41"]))),
+               guarded(lambda: scheds.__setitem__("PFM", gen_pfm(tier, seed, workdir))),
+               guarded(lambda: scheds.__setitem__("DENOM", gen_denom(tier, seed, workdir, excl["C42"])))]
     if binary is None:
         binary = vk.build_harness("transfermw")
-    excl41 = bool(open_known("C41"))
-    scheds = gen_rl(tier, seed, workdir, excl41)
-    vk.log("generated %d schedules in %.1fs" % (len(scheds), time.time() - t0))
-    groups = drive(binary, scheds, workdir, "main", sizes(tier)["shards"])
-    vk.log("drove %d schedules (%.1fs)" % (len(scheds), time.time() - t0))
+    for th in threads[3:]:
+        th.join()
+    if errors:
+        raise errors[0]
+    allsched = scheds["PFM"] + scheds["DENOM"] + scheds["RL"]
+    vk.log("generated %d schedules (RL %d, PFM %d, DENOM %d) in %.1fs" % (len(allsched), len(scheds["RL"]), len(scheds["PFM"]),
+                                                                            len(scheds["DENOM"]), time.time() - t0))
+    groups = drive(binary, allsched, workdir, "main", sizes(tier)["shards"])
+    vk.log("drove %d schedules (%.1fs)" % (len(allsched), time.time() - t0))
     fails, steps = validate(groups, workdir, "main")
-    vk.log("validated %d steps, %d monitor failures (%.1fs)" % (steps, len(fails), time.time() - t0))
-    th.join()
+    vk.log("validated %d steps, %d monitor lines (%.1fs)" % (steps, len(fails), time.time() - t0))
+    for th in threads[:3]:
+        th.join()
     if errors:
         raise errors[0]
     cov, sigs = coverage_of(groups)
     sanity = [f for f in fails if f[2] == "X"]
     if sanity:
         raise vk.Infra("harness sanity monitors failed (infrastructure): %s" % sanity[:5])
-    by_id = {s["id"]: s for s in scheds}
+    by_id = {s["id"]: s for s in allsched}
     failing = {}
     for tr, step, prop, clause in fails:
         if prop in PROPS:
             failing.setdefault(tr, by_id.get(tr))
-    conf = collections.Counter(f[3] for f in fails if f[2] == "CONF")
-    sample = None
+    conf = collections.Counter("%s:%s" % (f[0].split("-")[0], f[3]) for f in fails if f[2] == "CONF")
+    samples = {}
     for kind, lines in sorted(groups.items()):
         first = json.loads(lines[0])["tr"]
-        sample = {"schedule_id": first, "kind": kind, "trace_prefix": [slim(json.loads(l)) for l in lines[:8] if json.loads(l)["tr"] == first]}
-        break
-    result.update({"tier": tier, "seed": seed, "traces": len(scheds), "steps": steps,
-                   "fails": [f for f in fails if f[2] in PROPS], "conformance_diagnostics": dict(conf),
-                   "coverage": dict(cov), "sigs": sigs, "failing_schedules": failing, "sample": sample,
-                   "excluded_known_classes": {"C41": excl41}, "wall": time.time() - t0})
+        samples[kind] = {"schedule_id": first, "kind": kind,
+                         "trace_prefix": [slim(json.loads(l)) for l in lines[:6] if json.loads(l)["tr"] == first]}
+    per_kind = {k: {"traces": len(scheds[k]), "steps": len(groups.get(k, []))} for k in scheds}
+    result.update({"tier": tier, "seed": seed, "traces": len(allsched), "steps": steps,
+                   "fails": [list(f) for f in fails if f[2] in PROPS], "conformance_diagnostics": dict(conf),
+                   "coverage": dict(cov), "sigs": sigs, "failing_schedules": failing, "sample": samples.get("RL"),
+                   "samples": samples, "per_kind": per_kind, "excluded_known_classes": excl, "wall": time.time() - t0})
     return result
 
 
 def slim(d):
-    return {"i": d["i"], "a": d["a"], "res": d["res"], "ack": d.get("ack"), "st": d.get("st")}
+    out = {"i": d["i"], "a": d["a"], "res": d["res"]}
+    for k in ("ack", "nb", "pk", "sent", "wack", "moved", "charged", "parsed"):
+        if k in d:
+            out[k] = d[k]
+    if d.get("kind") == "RL":
+        out["st"] = d.get("st")
+    return out
+
+
+def evidence(pid, res):
+    kind = KIND_OF_PROP[pid]
+    mc = {SPEC_OF_PROP[pid]: res.get("mc", {}).get(SPEC_OF_PROP[pid], {})}
+    pk = res.get("per_kind", {}).get(kind, {})
+    cov = {k: v for k, v in sorted(res.get("coverage", {}).items()) if k.startswith(kind + ":")}
+    return {
+        "states": sum(v.get("distinct", 0) for v in mc.values()),
+        "transitions": sum(v.get("generated", 0) for v in mc.values()),
+        "traces_validated_against_impl": pk.get("traces", 0),
+        "samples": [res.get("samples", {}).get(kind)],
+        "evaluations": pk.get("steps", 0),
+        "distinct_nontrivial": res.get("sigs", {}).get(pid, 0),
+        "rule": "one evaluation = one abstract step executed on the real chains (one transaction on the chain under test plus its "
+                "relaying) and judged by TLC; distinct_nontrivial = distinct (action, result class, acknowledgement class, "
+                "denomination/route/packet shape) signatures among the steps of this property's specification",
+        "model_check": mc,
+        "coverage_by_action": cov,
+        "conformance_diagnostics": {k: v for k, v in res.get("conformance_diagnostics", {}).items()},
+        "excluded_known_class": res.get("excluded_known_classes", {}).get(pid, False),
+        "exhaustive": pid == "C42",
+    }
 
 
 def replay(schedule, binary=None):
@@ -345,6 +619,10 @@ def replay(schedule, binary=None):
 
 # ------------------------------------------------------------------------------------------ known findings
 
+KF_C41_CLASS = "undo-of-packet-whose-marker-survived-update-or-remove"
+KF_C42_CLASS = "native-base-denom-with-identifier-like-second-segment"
+
+
 def match_known(fail, schedule, known):
     """Is this monitor failure inside a listed input class?  Decided from the schedule (inputs) only."""
     if not schedule:
@@ -352,9 +630,13 @@ def match_known(fail, schedule, known):
     tr, step, prop, clause = fail
     for k in known:
         sig = k.get("signature", {})
-        if prop == "C41" and sig.get("class") == "undo-of-packet-whose-marker-survived-update-or-remove" and schedule.get("kind") == "RL":
+        if prop == "C41" and sig.get("class") == KF_C41_CLASS and schedule.get("kind") == "RL":
             hits = rl_class_steps(schedule["acts"])
             if hits and step >= hits[0]:
+                return k
+        if prop == "C42" and sig.get("class") == KF_C42_CLASS and schedule.get("kind") == "DENOM":
+            case = denom_case_of_step(schedule["acts"], step)
+            if case and case.get("kf"):
                 return k
     return None
 
@@ -363,7 +645,7 @@ def probe_known(pid, known, result):
     lines = []
     for k in known:
         sig = k.get("signature", {})
-        if pid == "C41" and sig.get("class") == "undo-of-packet-whose-marker-survived-update-or-remove":
+        if pid == "C41" and sig.get("class") == KF_C41_CLASS:
             hit = []
             for s in rl_kf_schedules():
                 fails, _ = replay(s)
@@ -371,9 +653,28 @@ def probe_known(pid, known, result):
                 if mine:
                     hit.append("%s step %d %s" % (s["id"], mine[0][1], mine[0][3]))
             if hit:
-                lines.append("KNOWN-FINDING: property=C41 id=%s rate-limit flow no longer equals the in-window accepted transfers after "
-                             "the refund of a packet whose pending marker survived UpdateRateLimit/RemoveRateLimit (%s)" % (k.get("id"), "; ".join(hit)))
+                lines.append("KNOWN-FINDING: property=C41 id=%s rate-limit flow differs from the in-window accepted transfers after the "
+                             "refund of a packet whose pending marker survived UpdateRateLimit/RemoveRateLimit (%s)" % (k.get("id"), "; ".join(hit)))
             else:
-                lines.append("NOTICE: property=C41 id=%s the canonical failing schedules no longer fail (defect fixed?) -- "
-                             "the entry can be dropped, the class is then explored again" % k.get("id"))
+                lines.append("NOTICE: property=C41 id=%s the canonical failing schedules no longer fail (defect fixed?); the entry "
+                             "can be dropped, the class is then explored again" % k.get("id"))
+        if pid == "C42" and sig.get("class") == KF_C42_CLASS:
+            workdir = os.path.join(vk.CACHE, "work", FAMILY + "_probe" + vk.repo_tag())
+            shutil.rmtree(workdir, ignore_errors=True)
+            os.makedirs(workdir)
+            hit = collections.OrderedDict()
+            for s in denom_kf_schedules(workdir):
+                fails, _ = replay(s)
+                for f in fails:
+                    if f[2] == "C42":
+                        case = denom_case_of_step(s["acts"], f[1])
+                        hit.setdefault("%s:%s" % (case["base"], f[3]), 0)
+                        hit["%s:%s" % (case["base"], f[3])] += 1
+            if hit:
+                lines.append("KNOWN-FINDING: property=C42 id=%s the rate limiter charges a denomination other than the one ICS-20 moved for "
+                             "native base denominations whose second segment looks like a channel/client id (%s)"
+                             % (k.get("id"), ", ".join("%s x%d" % kv for kv in hit.items())))
+            else:
+                lines.append("NOTICE: property=C42 id=%s the canonical failing cases no longer fail (defect fixed?); the entry "
+                             "can be dropped, the class is then explored again" % k.get("id"))
     return lines
